@@ -15,7 +15,7 @@ CONTENT = ("root_attrs", "summary", "leader", "structure", "line_meta", "image_a
 CLAUSE_CATS = {"spurious-error": ["spurious_error"], "not-failstop": ["not_failstop"], "wrong-error-class": ["wrong_error_class"],
                "product-modified": ["product_modified"], "cache-unasked": ["cache_unasked"], "options-mutated": ["options_mutated"],
                "cache-consulted-when-disabled": ["cache_consulted_when_disabled"], "not-repaired": ["not_repaired"], "load:differs": ["load_values"],
-               "load:error": ["load_error"], "cli-failed": ["cli_failed"]}
+               "load:error": ["load_error"], "cli-failed": ["cli_failed"], "copy-untyped": ["types", "unpicklable"]}
 FILES = ("summary", "vol", "led", "trl", "a", "b")
 
 
@@ -185,6 +185,8 @@ def run_trace(task):
                 ev["outcome"] = "error" if "load_error" in f else ("differs" if "load_values" in f else "equal")
             elif op["op"] == "cli":
                 ev["outcome"] = obs["outcome"]
+            if op["op"] == "copy":
+                ev["typed"] = not ({"types", "unpicklable"} & set(f))
             if op["op"] in ("open", "cli", "mutate", "copy", "drop", "load"):
                 ev.update(prod_changed="product_modified" in f, cache_foreign="cache_unasked" in f)
             if op["op"] in ("open", "cli"):
@@ -254,7 +256,7 @@ def validate(chk, results, own, path):
                 drift += 1
                 continue
             found = res["cats"].get(k, {})
-            cs = [c for c in found if c in CONTENT] if clause.startswith("content") else CLAUSE_CATS.get(clause, [clause])
+            cs = [c for c in found if c in CONTENT] if clause.startswith("content") else [c for c in CLAUSE_CATS.get(clause, [clause]) if clause != "copy-untyped" or c in found]
             for c in cs:
                 msg = "; ".join(found.get(c, [clause]))[:400]
                 if c in own:
